@@ -15,7 +15,7 @@ RULE = ('gin-machine/macros: 1-3 parse phases; macro definitions, uses (%m) and 
         'constant use delivers the stored object. non-trivial = a use that precedes the (re)definition it ends up seeing, '
         'or a constant abbreviated by a proper suffix while another constant shares a shorter suffix.')
 TRUSTED_BASE = c01.TRUSTED_BASE
-ASSUMPTIONS = ['finalize is called with an empty active scope (F16)']
+ASSUMPTIONS = []
 
 MACROS = ['mm', 'nn', 's1/mm']
 CONSTS = ['K', 'a.K', 'b.a.K', 'x.Y', 'Y', 'c.Z']
@@ -123,7 +123,7 @@ class MacroEngine(c01.CallEngine):
       if rng.random() < 0.3:
         ops.append(['with', rng.choice(ginm.SCOPES), [['call', consumer['sel'], [], []]]])
     if rng.random() < 0.5:
-      ops.append(['finalize'])
+      ops.append(['finalize'] if rng.random() < 0.6 else ['with', rng.choice(['s1', 's1/s2']), [['finalize']]])   # also from inside a scope
     ops += [['dumpcalls'], ['dumpconfig']]
     return {'regs': regs, 'ops': ops}
 
